@@ -1,4 +1,4 @@
-from checks import mibcompile, oidindex, atomicwrite, searcher, readerlookup, history, oidtree, decls, refs, types, texts, v1v2, pysnmpload
+from checks import mibcompile, oidindex, atomicwrite, searcher, readerlookup, history, oidtree, decls, refs, types, texts, v1v2, pysnmpload, syntax
 
 RULE_MC = ('scenario = terminal state of MibCompile.tla exported by TLC (request x lazily chosen answers of every '
            'component x options); non-trivial = at least one component answered with a failure / fresh / borrow; '
@@ -71,3 +71,6 @@ REGISTRY['C16'] = {'run': v1v2.run, 'replay': v1v2.replay, 'finish': {
 
 REGISTRY['C04'] = {'run': pysnmpload.run, 'replay': pysnmpload.replay, 'finish': {
     'rule': 'module sets rendered from the scenario models OidTree (all OID-carrying kinds, tables, cross-module parents), Decls, Types (chains across modules, named values, defaults) and Refs; each compiled with both backends and loaded into the real MibBuilder in a seeded order; distinct by module texts', 'exhaustive': False}}
+
+REGISTRY['C02'] = {'run': syntax.run, 'replay': syntax.replay, 'finish': {
+    'rule': 'scenario = reachable state of Syntax.tla: a file of modules built declaration by declaration (every clause kind with each optional part present/absent, lists of length 0-3, numbers of every token class) x 9 layout offsets x 4 module option sets; every single-declaration file plus simulated files of up to 2 modules x 3 declarations; each rendered twice (other fillers / block bodies) and parsed under three dialects; distinct by (tokens, fillers)', 'exhaustive': False}}
